@@ -6,7 +6,6 @@ import (
 	"fmt"
 	"os"
 	"path/filepath"
-	"runtime"
 	"sort"
 	"strconv"
 	"strings"
@@ -145,7 +144,7 @@ func cmdCheck(args []string) int {
 		return 3
 	}
 	keys := e.propFuncs(prop)
-	outDir := filepath.Join(verif, "out", prop+"-"+*tier)
+	outDir := filepath.Join(outBase(verif), "out", prop+"-"+*tier)
 	os.RemoveAll(outDir)
 	os.MkdirAll(outDir, 0o755)
 
@@ -153,7 +152,7 @@ func cmdCheck(args []string) int {
 	os.MkdirAll(hintDir, 0o755)
 	hintsTried, hintsFailed := 0, 0
 	HintSolver = func(obls []*Obligation) {
-		(&Solver{Dir: hintDir, Timeout: 10, Par: runtime.NumCPU(), Prelude: e.Prelude(), QFPrelude: e.QFPrelude(), Eng: e}).SolveAll(obls)
+		(&Solver{Dir: hintDir, Timeout: 10, Par: solverPar(), Prelude: e.Prelude(), QFPrelude: e.QFPrelude(), Eng: e}).SolveAll(obls)
 	}
 	var all []*Obligation
 	var fnEv []fnEvidence
@@ -192,7 +191,7 @@ func cmdCheck(args []string) int {
 	if *tier == "thorough" {
 		timeout = 120
 	}
-	sv := &Solver{Dir: outDir, Timeout: timeout, Agreement: *tier == "thorough", Par: runtime.NumCPU(), Prelude: e.Prelude(), QFPrelude: e.QFPrelude(), Seed: seed, Eng: e}
+	sv := &Solver{Dir: outDir, Timeout: timeout, Agreement: *tier == "thorough", Par: solverPar(), Prelude: e.Prelude(), QFPrelude: e.QFPrelude(), Seed: seed, Eng: e}
 	sv.SolveAll(all)
 
 	// tally
@@ -262,7 +261,7 @@ func cmdCheck(args []string) int {
 	assumptions := e.assumptionList(prop, keys)
 
 	known := loadKnownFindings(verif)
-	replayDir := filepath.Join(verif, "out", "replay")
+	replayDir := filepath.Join(outBase(verif), "out", "replay")
 	os.MkdirAll(replayDir, 0o755)
 	nKnown := 0
 	for _, id := range failedOrder {
@@ -370,9 +369,9 @@ func loadExpected(verif string) map[string]int {
 }
 
 func writeEvidence(verif, prop string, ev map[string]interface{}) {
-	os.MkdirAll(filepath.Join(verif, "evidence"), 0o755)
+	os.MkdirAll(filepath.Join(outBase(verif), "evidence"), 0o755)
 	data, _ := json.MarshalIndent(ev, "", " ")
-	os.WriteFile(filepath.Join(verif, "evidence", prop+".json"), data, 0o644)
+	os.WriteFile(filepath.Join(outBase(verif), "evidence", prop+".json"), data, 0o644)
 }
 
 func writeEvidenceUndecided(verif, prop, tier string, seed int, start time.Time, reason string) {
@@ -410,3 +409,7 @@ func writeReplay(path, prop, id string, obs []*Obligation, found bool, witness i
 }
 
 func cmdSelftest(args []string) int { return runSelftest(args) }
+
+// outBase: where evidence/ and out/ are written (GOVC_OUT redirects them: used by the self-test so that runs
+// against deliberately broken trees do not overwrite the evidence of the real tree).
+func outBase(verif string) string { return envOr("GOVC_OUT", verif) }
